@@ -194,9 +194,14 @@ func (vt *Model) cud(ps int) {
 	if ps == 0 {
 		ps = 1
 	}
+	// Below the scrolling region the cursor stops at the last line
+	clamp := row(vt.height() - 1)
+	if vt.cursor.row <= vt.margin.bottom {
+		clamp = vt.margin.bottom
+	}
 	vt.cursor.row += row(ps)
-	if vt.cursor.row > vt.margin.bottom {
-		vt.cursor.row = vt.margin.bottom
+	if vt.cursor.row > clamp {
+		vt.cursor.row = clamp
 	}
 }
 
